@@ -64,3 +64,18 @@ Print Assumptions C02_parsed_tag_values_partial.
 
 Example trimming_tags_are_most : length trimming_tags = 55 /\ length tags = 60.
 Proof. vm_compute. split; reflexivity. Qed.
+
+(* partial, message level: every tag of a message the reader accepts is what that tag's own Parse returned
+   for one of the segments (each dispatch arm fills its own record: per-run obligation), hence - for the 55
+   tags above - each of its elements is trimmed, or the cut of a trimmed over-width value *)
+From Wire Require Import Theory.DispatchFacts.
+
+Theorem C02_accepted_message_values_partial : forall preset opts chunks final m i v,
+  read_model preset opts chunks final = ROk m -> nth i (m_tags m) None = Some v ->
+  In (nth i tags tag_Amount) trimming_tags -> Forall val_ok (tv_elems v).
+Proof.
+  intros preset opts chunks final m i v Hr Hi Hin. apply filter_In in Hin as [_ Hs].
+  assert (Hob : ob_dispatch_arms = true) by (vm_compute; reflexivity).
+  exact (accepted_values preset opts chunks final m Hob Hr i v Hi Hs).
+Qed.
+Print Assumptions C02_accepted_message_values_partial.
